@@ -4,6 +4,7 @@
 import PsProofs.Store
 import PsProofs.IterRun
 import PsProofs.StoreN
+import PsModel.Generated.Locks
 
 namespace Ps.Props
 open Ps Ps.Spec
@@ -73,5 +74,14 @@ example {env : Env} (h : EnvOK env) (kf : Nat → Nat) :
   rw [C06_store_primes h kf 40 0 30 255 (by decide) (by decide)]
   have : primesIn 0 30 = [2, 3, 5, 7, 11, 13, 17, 19, 23, 29] := by decide
   simp [this, storeMaxPrime]
+
+/-- **C06 (model sources)** regenerated on every run: digests of the (comment-, hook- and whitespace-normalised) bodies of the
+    functions that the hand-written model behind the theorems of this file mirrors.  An edit to one of
+    them — harmless or not — breaks this obligation; the check then searches for a failing input
+    with the correspondence streams (DESIGN.md section 2, step 5). -/
+theorem C06_model_sources :
+    Gen.modelSources.filter (fun e => e.1 ∈ ["StorePrimes.store_primes", "StorePrimes.store_n_primes"]) =
+     [("StorePrimes.store_primes", "4822590d45cd97f2ec4e"),
+      ("StorePrimes.store_n_primes", "a0d4fce611b25b96f3b9")] := by decide
 
 end Ps.Props
